@@ -204,6 +204,10 @@ func TestC14_Planted(t *testing.T) {
 			// keys as users have them: the empty string, blanks, other scripts, digits (sorted as text), slashes
 			oddKeys = true
 			odd := []string{"", " ", "K", "a/b", "é", "10", "9", "~", "k", "\x00", "-"}
+			if rapid.Bool().Draw(t, "latin1Keys") {
+				// keys in a legacy encoding: not UTF-8, distinct as bytes
+				odd = []string{"n\xe8", "n\xe9", "\xfe", "\xff", "n", "n\xc3", "n\xc3\xa8", "\xe8", "\x80", "é", "n\xe8\xe9"}
+			}
 			off := rapid.IntRange(0, len(odd)-1).Draw(t, "keyOffset")
 			for i, k := range m.Keys {
 				k.S = odd[(off+i)%len(odd)]
